@@ -501,15 +501,31 @@ static size_t tsize(int t) { return t == 0 ? 8 : t == 1 ? 4 : t == 2 ? 1 : t == 
 static uint64_t fnv(uint64_t h, const void* p, size_t n) { const unsigned char* c = p; for (size_t i = 0; i < n; i++) { h ^= c[i]; h *= 1099511628211ULL; } return h; }
 static Field* findf(const char* name) { for (int i = 0; i < nF; i++) if (!strcmp(F[i].name, name)) return &F[i]; return NULL; }
 
-// hash of every mjData array except the sleep countdown itself (tree_asleep) and non-semantic storage
+// Hash of the results of a step: every buffer array of mjData (MJDATA_POINTERS) except the sleep countdown
+// tree_asleep itself, the rows [0, nefc) of the defining efc arrays, and the semantic fields of the contacts.
+// Other arena arrays are skipped: the arena is not cleared between steps, their unused parts are unspecified.
+static int narena_first = -1;
+static int hashed_arena(const char* nm) {
+  static const char* ok[] = {"efc_type", "efc_id", "efc_pos", "efc_vel", "efc_aref", "efc_force", "efc_state", "efc_D", "efc_R", "efc_margin", NULL};
+  for (int i = 0; ok[i]; i++) if (!strcmp(nm, ok[i])) return 1;
+  return 0;
+}
 static uint64_t hash_outputs(char* firstdiff_names, size_t cap) {
   (void)firstdiff_names; (void)cap;
   fields_data();
+  if (narena_first < 0) { nF = 0;
+#define X(type, name, nr, nc) addf(#name, tcode_##type, d->name, 0);
+#define XNV X
+    MJDATA_POINTERS
+#undef XNV
+#undef X
+    narena_first = nF; fields_data(); }
   uint64_t h = 1469598103934665603ULL;
   for (int i = 0; i < nF; i++) {
     const char* nm = F[i].name;
     if (!F[i].ptr || tsize(F[i].type) == 0) continue;
     if (!strcmp(nm, "tree_asleep") || !strcmp(nm, "plugin_data") || !strcmp(nm, "plugin") || !strcmp(nm, "contact")) continue;
+    if (i >= narena_first && !hashed_arena(nm)) continue;
     h = fnv(h, nm, strlen(nm));
     h = fnv(h, F[i].ptr, (size_t)F[i].n * tsize(F[i].type));
   }
@@ -529,6 +545,7 @@ static void print_field_hashes(void) {
   fields_data();
   for (int i = 0; i < nF; i++) {
     if (!F[i].ptr || tsize(F[i].type) == 0 || !strcmp(F[i].name, "contact") || !strcmp(F[i].name, "plugin_data") || !strcmp(F[i].name, "plugin")) continue;
+    if (narena_first >= 0 && i >= narena_first && !hashed_arena(F[i].name)) continue;
     printf(" %s:%016llx", F[i].name, (unsigned long long)fnv(1469598103934665603ULL, F[i].ptr, (size_t)F[i].n * tsize(F[i].type)));
   }
   printf(" ncon:%d nefc:%d nisland:%d", d->ncon, d->nefc, d->nisland);
@@ -540,7 +557,7 @@ static void print_record(void) {
   printf(" / "); print_ints(d->tree_awake, m->ntree);
   printf(" / "); print_ints(d->body_awake, m->nbody);
   // touching tree pairs among the contacts that reach the constraint stage (exclude == 0)
-  printf(" /");
+  printf(" / -");
   for (int i = 0; i < d->ncon; i++) {
     mjContact* c = d->contact + i;
     if (c->geom[0] < 0 || c->geom[1] < 0) continue;
